@@ -1,7 +1,7 @@
 #!/usr/bin/env python3
 """Builds a history witness for the C05-C09 monitors.
 usage: mkhist.py <out.json> <property> <Kid> <msg> <op> [<op> ...]
-ops:  parse:<text>  exect:<name>  execthtml:<name>  tnew:<name>  clone  lookup:<name>  (handles: v0 root; tnew/clone/lookup results go to the next variable and following ops use it unless written  @k:op)"""
+ops:  parse:<text>  exect:<name>  execthtml:<name>  tnew:<name>  clone  lookup:<name>  csp  exec  (handles: v0 root; tnew/clone/lookup results go to the next variable and following ops use it unless written  @k:op)"""
 import json, sys
 def q(s): return json.dumps(s, ensure_ascii=True)
 out, prop, kid, msg = sys.argv[1:5]
@@ -16,6 +16,7 @@ for a in sys.argv[5:]:
     elif kind in('exect','execthtml'): ops.append({"k":kind,"h":h,"d":-1,"n":arg,"data":0})
     elif kind in('tnew','lookup'): ops.append({"k":kind,"h":h,"d":nxt,"n":arg}); cur=nxt; nxt+=1
     elif kind=='clone': ops.append({"k":"clone","h":h,"d":nxt}); cur=nxt; nxt+=1
+    elif kind=='csp': ops.append({"k":"csp","h":h,"d":-1})
     elif kind in('exec','exechtml'): ops.append({"k":kind,"h":h,"d":-1,"data":0})
     else: raise SystemExit("bad op "+a)
 data={"S_quoted":[q("a&b"),q("x<y"),q("q r"),q("w"),q("w"),q("w"),q("w"),q("w")],"C":[True,False,True,False],"L_quoted":[[[q("e0"),q("e1")]],[[q("e0"),q("e1")]],[]]}
